@@ -479,8 +479,9 @@ func main() {
 // ---------------------------------------------------------------- native runs
 
 type nativeCase struct {
-	Harness string     `json:"harness"`
-	Vector  []VecEntry `json:"vector"`
+	Harness  string     `json:"harness"`
+	Vector   []VecEntry `json:"vector"`
+	Realtime bool       `json:"realtime"`
 }
 
 type nativeOut struct {
@@ -575,7 +576,7 @@ func replayFile(path string) int {
 		fmt.Fprintln(os.Stderr, err)
 		return 2
 	}
-	outs, log, err := runNative([]nativeCase{{d.Harness, d.Vector}}, allHarnessNames(pkg), "replay")
+	outs, log, err := runNative([]nativeCase{{d.Harness, d.Vector, true}}, allHarnessNames(pkg), "replay")
 	if err != nil {
 		fmt.Fprintln(os.Stderr, err, log)
 		return 2
@@ -611,15 +612,15 @@ func finish(prop string, tier, seed int, partial bool, results []HarnessResult, 
 	for i := range results {
 		r := &results[i]
 		for j := range r.Validations {
-			cases = append(cases, nativeCase{r.Name, r.Validations[j].Vector})
+			cases = append(cases, nativeCase{r.Name, r.Validations[j].Vector, false})
 			refs = append(refs, caseRef{res: r, val: &r.Validations[j]})
 		}
 		for j := range r.Violations {
-			cases = append(cases, nativeCase{r.Name, r.Violations[j].Vector})
+			cases = append(cases, nativeCase{r.Name, r.Violations[j].Vector, true})
 			refs = append(refs, caseRef{res: r, viol: &r.Violations[j]})
 		}
 		for j := range r.Known {
-			cases = append(cases, nativeCase{r.Name, r.Known[j].Vector})
+			cases = append(cases, nativeCase{r.Name, r.Known[j].Vector, true})
 			refs = append(refs, caseRef{res: r, viol: &r.Known[j], knwn: true})
 		}
 		if r.EngineError != "" {
